@@ -371,6 +371,10 @@ def check_disjoint_set(fx, rep):
                 s = str(comb[0])
                 both = "::remove" in s and ("::get" in s or s.count("::remove") >= 2)
             ok = ok and both
+            # the hand-over happens on every path past the same-root return: an insertion that depends on the data (skipped when
+            # both sets carry equal data) loses one contribution for every combine that is not idempotent
+            conds = [1 for a, k_ in ins_ps if isinstance(a, dict) and a.get("k") in ("If", "Match") and not a.get("exp") and "Desugar" not in str(a.get("source", ""))]
+            ok = ok and not conds
         rep.oblige(
             ok,
             "R19.3",
